@@ -364,6 +364,81 @@ Theorem multi_bundle_v1_others_unaffected :
     v1_read (st' b) slot = v1_read (st b) slot.
 Proof. exact m1_store_others_unaffected. Qed.
 
+(* ---- CompactCacheBase.store_tiles as a whole: the routing decision (`c_single_bundle`: more than one pending tile
+   and every pending tile in the bundle file of the last one -> ONE Bundle.store_tiles call that receives all tiles
+   and reduces their coordinates modulo 128; otherwise one store_tile per tile) followed by the route taken.
+   `tiles` = the pending tiles with their bundle file; `c_store_ops` / `c1_store_ops` = the raw writes of the call. *)
+
+(* on both routes the raw writes that reach bundle file b are exactly Bundle.store_tiles on the tiles of b: no tile is
+   ever written into another bundle file (this is what the per-file correspondence compares with the recorded trace) *)
+Theorem cache_store_tiles_v2_routes_each_tile_to_its_bundle :
+  forall tiles st b, m_proj b (c_store_ops st tiles) = v2_store_ops (st b) (m_batch_of b tiles).
+Proof. exact c_store_proj. Qed.
+
+Theorem cache_store_tiles_v1_routes_each_tile_to_its_bundle :
+  forall tiles st b, m1_proj b (c1_store_ops st tiles) = v1_store_ops (st b) (m_batch_of b tiles).
+Proof. exact c1_store_proj. Qed.
+
+(* every prior cache content with the invariant, every batch (any mixture of bundle files, any order), every crash
+   point of the whole call: each address (bundle, slot) reads as before or the complete bytes of a tile of the batch
+   stored for exactly that address *)
+Theorem crash_safe_cache_store_tiles_v2 :
+  forall st tiles st' b slot,
+    (forall x, v2_wf (st x)) ->
+    (forall x, flen (st x) + total_len (m_batch_of x tiles) <= P40) ->
+    (forall bb s d, In (bb, s, d) tiles -> 0 <= s < SLOTS /\ d <> [] /\ zlen d < 16777216) ->
+    In st' (m_crash_states st (c_store_ops st tiles)) -> 0 <= slot < SLOTS ->
+    v2_read (st' b) slot = v2_read (st b) slot \/
+    exists dd, has_data (m_batch_of b tiles) slot dd = true /\ dd <> [] /\ v2_read (st' b) slot = RData dd.
+Proof. exact c_store_crash_safe. Qed.
+
+(* addresses the batch holds no tile for (same bundle or any other) are unaffected in every crash state *)
+Theorem cache_store_tiles_v2_others_unaffected :
+  forall st tiles st' b slot,
+    (forall x, v2_wf (st x)) ->
+    (forall x, flen (st x) + total_len (m_batch_of x tiles) <= P40) ->
+    (forall bb s d, In (bb, s, d) tiles -> 0 <= s < SLOTS /\ d <> [] /\ zlen d < 16777216) ->
+    In st' (m_crash_states st (c_store_ops st tiles)) -> 0 <= slot < SLOTS ->
+    (forall d, ~ In (b, slot, d) tiles) ->
+    v2_read (st' b) slot = v2_read (st b) slot.
+Proof. exact c_store_others_unaffected. Qed.
+
+Theorem cache_store_tiles_v2_reestablishes_invariant :
+  forall st tiles,
+    (forall x, v2_wf (st x)) ->
+    (forall x, flen (st x) + total_len (m_batch_of x tiles) <= P40) ->
+    (forall bb s d, In (bb, s, d) tiles -> 0 <= s < SLOTS /\ d <> [] /\ zlen d < 16777216) ->
+    forall x, v2_wf (m_apply_all st (c_store_ops st tiles) x).
+Proof. exact c_store_wf. Qed.
+
+Theorem crash_safe_cache_store_tiles_v1 :
+  forall st tiles st' b slot,
+    (forall x, v1_wf (st x)) ->
+    (forall x, flen (v1dat (st x)) + total_len (m_batch_of x tiles) <= 1099511627776) ->
+    (forall bb s d, In (bb, s, d) tiles -> 0 <= s < SLOTS /\ d <> [] /\ zlen d < 4294967296) ->
+    In st' (m1_crash_states st (c1_store_ops st tiles)) -> 0 <= slot < SLOTS ->
+    v1_read (st' b) slot = v1_read (st b) slot \/
+    exists dd, has_data (m_batch_of b tiles) slot dd = true /\ dd <> [] /\ v1_read (st' b) slot = RData dd.
+Proof. exact c1_store_crash_safe. Qed.
+
+Theorem cache_store_tiles_v1_others_unaffected :
+  forall st tiles st' b slot,
+    (forall x, v1_wf (st x)) ->
+    (forall x, flen (v1dat (st x)) + total_len (m_batch_of x tiles) <= 1099511627776) ->
+    (forall bb s d, In (bb, s, d) tiles -> 0 <= s < SLOTS /\ d <> [] /\ zlen d < 4294967296) ->
+    In st' (m1_crash_states st (c1_store_ops st tiles)) -> 0 <= slot < SLOTS ->
+    (forall d, ~ In (b, slot, d) tiles) ->
+    v1_read (st' b) slot = v1_read (st b) slot.
+Proof. exact c1_store_others_unaffected. Qed.
+
+Theorem cache_store_tiles_v1_reestablishes_invariant :
+  forall st tiles,
+    (forall x, v1_wf (st x)) ->
+    (forall x, flen (v1dat (st x)) + total_len (m_batch_of x tiles) <= 1099511627776) ->
+    (forall bb s d, In (bb, s, d) tiles -> 0 <= s < SLOTS /\ d <> [] /\ zlen d < 4294967296) ->
+    forall x, v1_wf (m1_apply_all st (c1_store_ops st tiles) x).
+Proof. exact c1_store_wf. Qed.
+
 (* ================================================================================================ *)
 (* A complete store call on a compact cache directory: initialisation of a missing bundle (and, for v1, index) file
    by write_atomic AND the in-place phase as ONE operation list.  `bdir` maps the paths of the directory to files
